@@ -221,7 +221,7 @@ class Job:
     def __init__(self, name, src, entry, enforce=None, replace=(), loop_contracts=False, flags=(),
                  defines=(), timeout=600, mem_gb=12, expect="success", kind="proof", unwind=None,
                  checks=None, cover=False, note="", functions=(), includes=(), solver=(), object_bits=None,
-                 bounded=False, role="property", cover_by_assert=False, stop_on_fail=False):
+                 bounded=False, role="property", cover_by_assert=False, stop_on_fail=False, mem_est=2):
         self.name = name
         self.src = src
         self.entry = entry
@@ -246,6 +246,7 @@ class Job:
         self.role = role              # "property" -> a failed obligation is property-level; "aux"
         self.cover_by_assert = cover_by_assert  # cover goals written as assert(!(c), "covergoal ..."): every one must FAIL
         self.stop_on_fail = stop_on_fail and not cover_by_assert  # one SAT query; on failure only the first failed obligation is reported
+        self.mem_est = mem_est        # estimated peak resident memory in GB (scheduling only: jobs are started while the sum fits the budget)
         self.result = None
 
 
@@ -497,8 +498,31 @@ def run_jobs(jobs, workdir, max_workers=None):
     only = os.environ.get("HEX_ONLY")  # development aid: run only the jobs whose name matches
     if only:
         jobs[:] = [j for j in jobs if re.search(only, j.name)]
+    # memory-aware admission: the sum of the estimates of the running jobs stays within the budget
+    import threading
+    try:
+        total_gb = os.sysconf("SC_PAGE_SIZE") * os.sysconf("SC_PHYS_PAGES") / (1 << 30)
+    except (ValueError, OSError):
+        total_gb = 32
+    budget = max(8.0, min(float(os.environ.get("HEX_MEM_BUDGET_GB", "0")) or total_gb * 0.6, total_gb * 0.8))
+    cond = threading.Condition()
+    used = [0.0]
+
+    def admitted(job):
+        need = min(float(job.mem_est), budget)
+        with cond:
+            while used[0] + need > budget:
+                cond.wait()
+            used[0] += need
+        try:
+            return run_job(job, workdir)
+        finally:
+            with cond:
+                used[0] -= need
+                cond.notify_all()
+    jobs_sorted = sorted(jobs, key=lambda j: -j.mem_est)
     with concurrent.futures.ThreadPoolExecutor(max_workers=max_workers or min(NCPU, max(1, len(jobs)))) as ex:
-        futs = {ex.submit(run_job, j, workdir): j for j in jobs}
+        futs = {ex.submit(admitted, j): j for j in jobs_sorted}
         for f in concurrent.futures.as_completed(futs):
             j = futs[f]
             try:
